@@ -100,6 +100,9 @@ IMPL_RE = re.compile(r"^impl(?:<[^>{}]*>)?\s+(?:(\w+)(?:<[^{};]*>)?\s+for\s+)?(\
 FN_RE = re.compile(r"\bfn\s+(\w+)\s*(?:<[^>()]*>)?\s*\(")
 
 
+IMPL_HEADERS = {}
+
+
 def impl_blocks(region, struct):
     """[(trait or None, block text)] of every `impl [Trait for] struct` in source order."""
     out = []
@@ -108,6 +111,7 @@ def impl_blocks(region, struct):
             continue
         end = match_close(region, m.end(), "{", "}")
         out.append((m.group(1), region[m.end():end - 1]))
+        IMPL_HEADERS[id(out[-1][1])] = m.group(0)
     return out
 
 
@@ -642,10 +646,16 @@ class Parser:
 
     def macro(self):
         name = self.eat()
-        if name in ("assert!", "panic!"):
+        if name in ("assert!", "panic!", "assert_ne!"):
             self.eat("(")
             if name == "assert!":
                 c = self.expr()
+            elif name == "assert_ne!":
+                a = self.expr()
+                self.eat(",")
+                b = self.expr()
+                c = ("bin", "!=", a, b)
+                name = "assert!"
             else:
                 c = None
             depth = 1
@@ -779,6 +789,18 @@ def STRUCT(name):
     return ("struct", name)
 
 
+MAP = ("map",)                      # BTreeMap<usize, usize>
+KL, KN, KA = ("kl",), ("kn",), ("ka",)   # set representations: cons list / cons-if-absent list / ascending list
+
+
+def SET(kind):
+    return ("set", kind)
+
+
+PSET = ("pset",)                    # BTreeSet<(usize, usize)>: the ascending pair list of Model/Repr.lean (`pinsert`)
+BLOCKS = ("blocks",)                # the bit blocks of the adjacency matrix (never touched by the covered code)
+
+
 def prune(t):
     while isinstance(t, TVar) and t.ref is not None:
         t = t.ref
@@ -791,6 +813,10 @@ def show_ty(t):
         return "?num" if t.numeric else "?"
     if t[0] in ("list", "opt"):
         return f"{t[0]}<{show_ty(t[1])}>"
+    if t[0] == "set":
+        return "set"
+    if t[0] in ("setiter", "tarjanOf", "graph", "map", "pset", "blocks"):
+        return t[0]
     if t[0] == "tup":
         return "(" + ", ".join(show_ty(x) for x in t[1]) + ")"
     if t[0] == "struct":
@@ -816,7 +842,7 @@ def unify(a, b, what):
         return
     if a[0] != b[0]:
         raise TErr(f"type mismatch in {what}: {show_ty(a)} vs {show_ty(b)}")
-    if a[0] in ("list", "opt"):
+    if a[0] in ("list", "opt", "set"):
         unify(a[1], b[1], what)
     elif a[0] == "tup":
         if len(a[1]) != len(b[1]):
@@ -834,7 +860,19 @@ def unify(a, b, what):
         unify(a[2], b[2], what)
 
 
+CUR = {"graph": "Graph"}
 TY_MARK = re.compile("«T(\\d+):(\\d)»")
+KIND_MARK = re.compile("«K(\\d+)»")
+
+
+def kind_suffix(k):
+    """suffix of the runtime set operations for a set representation (marker while unresolved)"""
+    k = prune(k)
+    if isinstance(k, TVar):
+        TVARS[k.id] = k
+        return f"«K{k.id}»"
+    return {"kl": "L", "kn": "N", "ka": "A"}[k[0]]
+
 TVARS = {}
 
 
@@ -859,8 +897,18 @@ def lean_ty(t, atom=False, prec=None):
     if k == "entry":
         return "Entry"
     if k == "struct":
-        return t[1]
-    if k == "list":
+        return STRUCTS[t[1]].get("extern", t[1]) if t[1] in STRUCTS else t[1]
+    if k == "pset":
+        return "List (Nat × Nat)" if prec < 2 else "(List (Nat × Nat))"
+    if k == "blocks":
+        return "List (BitVec 64)" if prec < 2 else "(List (BitVec 64))"
+    if k == "map":
+        return "NatMap"
+    if k in ("graph", "tarjanOf"):
+        return {"AM": "Johnson.AM"}.get(CUR["graph"], CUR["graph"])
+    if k == "set":
+        s, own = "List Nat", 2
+    elif k == "list":
         s, own = "List " + lean_ty(t[1], prec=2), 2
     elif k == "opt":
         s, own = "Option " + lean_ty(t[1], prec=2), 2
@@ -888,7 +936,13 @@ def resolve_types(text):
         if new == text:
             break
         text = new
-    return text
+
+    def ksub(m):
+        k = prune(TVARS[int(m.group(1))])
+        if isinstance(k, TVar):
+            raise TErr("the representation of a local BTreeSet could not be inferred")
+        return kind_suffix(k)
+    return KIND_MARK.sub(ksub, text)
 
 
 def proj(code, i, n):
@@ -949,6 +1003,43 @@ STRUCTS = {
                           item=None),
 }
 
+STRUCTS.update({
+    # maps / sets exactly as the hand-written Model/Tarjan.lean keeps them (docs/AlgoGen.md, "Set 2")
+    "Tarjan": dict(file="tarjan.rs", graph="VGraph", sentinel=None,
+                   fields=[("digraph", "&'aD", None), ("i", "usize", NAT), ("stack", "Vec<usize>", LIST(NAT)),
+                           ("on_stack", "BTreeSet<usize>", SET(KL)), ("index", "BTreeMap<usize,usize>", MAP),
+                           ("low_link", "BTreeMap<usize,usize>", MAP),
+                           ("components", "Vec<BTreeSet<usize>>", LIST(SET(KA)))],
+                   item=None),
+    # `blocked`: a duplicate-free list used as a set; `b`: ascending lists indexed by vertex; the digraph is the
+    # key list + row function `AM` of Model/JohnsonMap.lean; `Tarjan::new(&x).components()` is the hand-written
+    # `Johnson.tarjan x` (docs/AlgoGen.md, "Set 2")
+    "Johnson75": dict(file="johnson_75.rs", graph="AM", sentinel=None, tarjan_external=True,
+                      fields=[("a", "&'aD", None), ("b", "Vec<BTreeSet<usize>>", LIST(SET(KA))),
+                              ("blocked", "BTreeSet<usize>", SET(KN)), ("stack", "Vec<usize>", LIST(NAT))],
+                      item=None),
+})
+
+STRUCTS.update({
+    # the five representations: the structures of the hand-written Model/Repr.lean; `order()`, `arcs()`,
+    # `Self::empty`, `add_arc`, `add_arc_weighted` are its functions (`none` = the Rust code panics)
+    "AdjacencyList": dict(dir="repr/adjacency_list", file="mod.rs", graph=None, sentinel=None, item=None,
+                          extern="Repr.AdjList", lean_fields={"arcs": "rows"},
+                          fields=[("arcs", "Vec<BTreeSet<usize>>", LIST(SET(KA)))]),
+    "AdjacencyMap": dict(dir="repr/adjacency_map", file="mod.rs", graph=None, sentinel=None, item=None,
+                         extern="Repr.AdjMap", lean_fields={"arcs": "rows"},
+                         fields=[("arcs", "BTreeMap<usize,BTreeSet<usize>>", LIST(TUP(NAT, SET(KA))))]),
+    "AdjacencyMatrix": dict(dir="repr/adjacency_matrix", file="mod.rs", graph=None, sentinel=None, item=None,
+                            extern="Repr.AdjMatrix", lean_fields={},
+                            fields=[("blocks", "Vec<usize>", BLOCKS), ("order", "usize", NAT)]),
+    "EdgeList": dict(dir="repr/edge_list", file="mod.rs", graph=None, sentinel=None, item=None,
+                     extern="Repr.EdgeList", lean_fields={},
+                     fields=[("arcs", "BTreeSet<(usize,usize)>", PSET), ("order", "usize", NAT)]),
+    "AdjacencyListWeighted": dict(dir="repr/adjacency_list_weighted", file="mod.rs", graph=None, sentinel=None, item=None,
+                                  extern="Repr.AdjListW", lean_fields={"arcs": "rows"},
+                                  fields=[("arcs", "Vec<BTreeMap<usize,W>>", LIST(LIST(TUP(NAT, INT))))]),
+})
+
 # (struct, impl trait or None, rust fn, lean name, options)
 #   ret: model type of the returned value where the Rust text alone does not determine it
 TARGETS = [
@@ -986,6 +1077,41 @@ TARGETS = [
     ("FloydWarshall", None, "distances", "distances", {}),
 ]
 
+# the second generated file (Model/AlgoGen2.lean)
+TARGETS2 = [
+    ("Tarjan", None, "new", "new", {}),
+    ("Tarjan", None, "connect", "connect", {}),
+    ("Tarjan", None, "components", "componentsCall", {}),
+    ("Johnson75", None, "new", "new", {}),
+    ("Johnson75", None, "is_blocked", "isBlocked", {}),
+    ("Johnson75", None, "unblock", "unblock", {}),
+    ("Johnson75", None, "circuit", "circuit", {}),
+    ("Johnson75", None, "circuits", "circuits", {}),
+    # C16: the macro-generated `impl From<$type> for T` bodies (one row per instantiation) ...
+    ("AdjacencyList", "@impl_from_arcs_empty_order:AdjacencyMap", "from", "fromAdjacencyMap", {}),
+    ("AdjacencyList", "@impl_from_arcs_empty_order:AdjacencyMatrix", "from", "fromAdjacencyMatrix", {}),
+    ("AdjacencyList", "@impl_from_arcs_empty_order:EdgeList", "from", "fromEdgeList", {}),
+    ("AdjacencyMap", "@impl_from_arcs_order:AdjacencyList", "from", "fromAdjacencyList", {}),
+    ("AdjacencyMap", "@impl_from_arcs_order:AdjacencyMatrix", "from", "fromAdjacencyMatrix", {}),
+    ("AdjacencyMap", "@impl_from_arcs_order:EdgeList", "from", "fromEdgeList", {}),
+    ("AdjacencyMatrix", "@impl_from_arcs_empty_order:AdjacencyList", "from", "fromAdjacencyList", {}),
+    ("AdjacencyMatrix", "@impl_from_arcs_empty_order:AdjacencyMap", "from", "fromAdjacencyMap", {}),
+    ("AdjacencyMatrix", "@impl_from_arcs_empty_order:EdgeList", "from", "fromEdgeList", {}),
+    ("EdgeList", "@impl_from_arcs_order:AdjacencyList", "from", "fromAdjacencyList", {}),
+    ("EdgeList", "@impl_from_arcs_order:AdjacencyMap", "from", "fromAdjacencyMap", {}),
+    ("EdgeList", "@impl_from_arcs_order:AdjacencyMatrix", "from", "fromAdjacencyMatrix", {}),
+    ("AdjacencyListWeighted", "@impl_from_arcs_order:AdjacencyList", "from", "fromAdjacencyList", {}),
+    ("AdjacencyListWeighted", "@impl_from_arcs_order:AdjacencyMap", "from", "fromAdjacencyMap", {}),
+    ("AdjacencyListWeighted", "@impl_from_arcs_order:AdjacencyMatrix", "from", "fromAdjacencyMatrix", {}),
+    ("AdjacencyListWeighted", "@impl_from_arcs_order:EdgeList", "from", "fromEdgeList", {}),
+    # ... and the `impl<I: IntoIterator<..>> From<I>` bodies
+    ("AdjacencyList", "From", "from", "fromRows", {}),
+    ("AdjacencyMap", "From", "from", "fromRows", {}),
+    ("AdjacencyListWeighted", "From", "from", "fromRows", {}),
+    ("AdjacencyMatrix", "From", "from", "fromArcs", {}),
+    ("EdgeList", "From", "from", "fromArcs", {}),
+]
+
 # candidates deliberately left to the hand-written models
 NOT_COVERED = {
     ("FloydWarshall", None, "new"): "calls `DistanceMatrix::new` (`set_len` + `ptr::write` on an uninitialised buffer)",
@@ -1004,6 +1130,8 @@ FUEL_HINTS = {
     ("DijkstraDist", "next", "loop0"): "self.heap.length + 1",
     ("DijkstraPred", "next", "loop0"): "self.heap.length + 1",
     ("BellmanFordMoore", "distances", "while0"): "arcs_len",
+    ("Tarjan", "connect", "while0"): "self.stack.len()",
+    ("Johnson75", "unblock", "while0"): "self.b.len() + 1",
 }
 
 LEAN_KEYWORDS = {"at", "from", "end", "open", "then", "fun", "have", "show", "by", "do", "in", "let", "if", "else",
@@ -1044,6 +1172,7 @@ class Bind:
         self.stable = kw.get("stable", False)
         self.bid = -1
         self.nuse = 0
+        self.as_ref = kw.get("as_ref", False)   # elem: a `&mut` obtained from `p.add(i).as_mut()`
 
 
 class Emitter:
@@ -1069,14 +1198,15 @@ class LoopCtx:
         self.depth, self.cont_ok = 0, []
 
 
-MUTATING = {"push", "push_back", "pop", "pop_front", "reverse", "next", "by_ref", "clear", "get_mut"}
+MUTATING = {"add_arc", "add_arc_weighted", "push", "push_back", "pop", "pop_front", "reverse", "next", "by_ref", "clear", "get_mut", "insert", "remove",
+            "pop_first"}
 
 
 class Ctx:
     def __init__(self, sname, rfn, lname, fntab, aliases):
         self.sname, self.sinfo = sname, STRUCTS[sname]
         self.rfn, self.lname, self.fntab, self.aliases = rfn, lname, fntab, aliases
-        self.file = self.sinfo["file"]
+        self.file = self.sinfo["file"] if "dir" not in self.sinfo else self.sinfo["dir"] + "/" + self.sinfo["file"]
         self.em = Emitter()
         self.defs = []
         self.tmp = 0
@@ -1088,6 +1218,9 @@ class Ctx:
         self.self_mode = None
         self.value_ty = None
         self.ptr_alias = {}     # rust name -> root rust name (flow-insensitive, for the mutation pre-pass)
+        self.recursive = False
+        self.mutref_tys = {}
+        self.mutrefs = []       # rust names of the `&mut T` parameters (returned after `self`)
 
     # ---- names / bindings ----
     def fresh_tmp(self):
@@ -1121,11 +1254,22 @@ class Ctx:
             f.globals.add(name)
 
     def res_ty(self):
+        if self.mutrefs:
+            return TUP(self.value_ty, STRUCT(self.sname), *[self.mutref_tys[n] for n in self.mutrefs])
         if self.self_mode == "mut":
             return TUP(self.value_ty, STRUCT(self.sname))
         return self.value_ty
 
     def result(self, env, v):
+        if self.mutrefs:
+            if self.self_mode != "mut":
+                raise TErr("`&mut` parameters are supported for `&mut self` methods only")
+            parts = [v.code]
+            for n in ["self"] + self.mutrefs:
+                b = env[n]
+                self.use(b)
+                parts.append(b.lean)
+            return "(" + ", ".join(parts) + ")"
         if self.self_mode == "mut":
             sb = env["self"]
             self.use(sb)
@@ -1180,7 +1324,7 @@ def place_val(ctx, env, place):
         if isinstance(t, TVar) or t[0] != "struct":
             raise TErr(f"field `.{f}` of a value of type {show_ty(t)}")
         ty = field_ty(t[1], f)
-        code = f"{code}.{f}"
+        code = f"{code}.{STRUCTS[t[1]].get('lean_fields', {}).get(f, f)}"
     return Val(code, ty, atomic=True)
 
 
@@ -1229,6 +1373,39 @@ def eval_ptr(ctx, env, e):
         unify(i.ty, NAT, "pointer offset")
         return ("elem", base[1], i, ctx.site(unparse(e)))
     return None
+
+
+def elem_place(ctx, env, recv):
+    """`*p.add(i)`, `*q` (q a named element pointer) or `q` itself when it is a `&mut` to an element obtained
+    from `p.add(i).as_mut()`: (vector place, index Val, site) - else None."""
+    r = strip_wrappers(recv)
+    if r[0] == "un" and r[1] == "*":
+        pe = eval_ptr(ctx, env, r[2])
+        if pe is not None and pe[0] == "elem":
+            return pe[1], pe[2], pe[3]
+        return None
+    if r[0] == "var" and r[1] in env and env[r[1]].kind == "elem" and env[r[1]].site is not None and env[r[1]].as_ref:
+        pe = eval_ptr(ctx, env, r)
+        return pe[1], pe[2], pe[3]
+    return None
+
+
+def elem_update(ctx, env, ep, f):
+    """read the element, write back `f(old value Val)`; returns the old value Val"""
+    place, i, site = ep
+    pv = place_val(ctx, env, place)
+    t = prune(pv.ty)
+    if isinstance(t, TVar) or t[0] != "list":
+        raise TErr("element access on a value that is not a vector")
+    old = ctx.fresh_tmp()
+    ctx.em.emit(f"let {old} ← rd {site} {pv.p()} {i.p()}")
+    new = f(Val(old, t[1], atomic=True, stable=True))
+    if new is not None:
+        tmp = ctx.fresh_tmp()
+        pv = place_val(ctx, env, place)
+        ctx.em.emit(f"let {tmp} ← wr {site} {pv.p()} {i.p()} {new}")
+        place_set(ctx, env, place, tmp)
+    return Val(old, t[1], atomic=True, stable=True)
 
 
 def check_immutable_index(env, e, what):
@@ -1293,7 +1470,7 @@ def compile_expr(ctx, env, e, expect=None):
             return Val(b.lean, b.ty, atomic=True, stable=b.stable)
         if b.kind == "graph":
             ctx.use_global("g")
-            return Val("g", GRAPH_T, atomic=True)
+            return Val("g", GRAPH_T, atomic=True, stable=True)
         if b.kind == "cell":
             raise TErr(f"`{name}` is a reference to a vector element; only `*{name}` is supported")
         raise TErr(f"`{name}` is a raw pointer; only `*{name}` / `{name}.add(i)` are supported")
@@ -1351,6 +1528,12 @@ def compile_expr(ctx, env, e, expect=None):
     if k == "index":
         base = compile_expr(ctx, env, e[1])
         t = prune(base.ty)
+        if t == MAP:
+            k = compile_expr(ctx, env, e[2], NAT)
+            unify(k.ty, NAT, "map key")
+            tmp = ctx.fresh_tmp()
+            ctx.em.emit(f"let {tmp} ← mapIdx {base.p()} {k.p()}")
+            return Val(tmp, NAT, atomic=True, stable=True)
         if isinstance(t, TVar) or t[0] != "list":
             raise TErr(f"`{unparse(e)}`: indexing a value of type {show_ty(t)}")
         if e[2][0] == "range":
@@ -1453,20 +1636,37 @@ def compile_bin(ctx, env, e, expect):
         unify(b.ty, BOOL, f"operand of {op}")
         if not sub.lines:
             return Val(f"{a.p()} {op} {b.p()}", BOOL)
-        # the right operand has effects: keep the short circuit
+        # the right operand has effects: keep the short circuit; the variables it assigns (a call with
+        # `&mut self`, a `&mut` argument) come back out of the conditional together with its value
         del saved.lines[mark:]
         ca = compile_cond(ctx, env, e[2])
+        M = state_binds(ctx, env, [("expr", e[3], True)])
         tmp = ctx.fresh_tmp()
+        if not M:
+            if op == "&&":
+                saved.emit(f"let {tmp} ← (if {ca} then do")
+                saved.lines += sub.lines
+                saved.lines.append(" " * (saved.indent + 4) + f"pure {b.p()}")
+                saved.emit("  else pure false)")
+            else:
+                saved.emit(f"let {tmp} ← (if {ca} then pure true else do")
+                saved.lines += sub.lines
+                saved.lines.append(" " * (saved.indent + 4) + f"pure {b.p()})")
+            return Val(tmp, BOOL, atomic=True, stable=True)
+        ms = ", ".join(x.lean for x in M)
         if op == "&&":
             saved.emit(f"let {tmp} ← (if {ca} then do")
             saved.lines += sub.lines
-            saved.lines.append(" " * (saved.indent + 4) + f"pure {b.p()}")
-            saved.emit("  else pure false)")
+            saved.lines.append(" " * (saved.indent + 4) + f"pure ({b.code}, {ms})")
+            saved.emit(f"  else pure (false, {ms}))")
         else:
-            saved.emit(f"let {tmp} ← (if {ca} then pure true else do")
+            saved.emit(f"let {tmp} ← (if {ca} then pure (true, {ms}) else do")
             saved.lines += sub.lines
-            saved.lines.append(" " * (saved.indent + 4) + f"pure {b.p()})")
-        return Val(tmp, BOOL, atomic=True, stable=True)
+            saved.lines.append(" " * (saved.indent + 4) + f"pure ({b.code}, {ms}))")
+        n = len(M) + 1
+        for i, x in enumerate(M):
+            saved.emit(f"let {x.lean} := {proj(tmp, i + 1, n)}")
+        return Val(proj(tmp, 0, n), BOOL, atomic=True, stable=True)
     if op in CMP:
         a = compile_expr(ctx, env, e[2])
         b = compile_expr(ctx, env, e[3], a.ty)
@@ -1529,10 +1729,10 @@ def compile_struct(ctx, env, e):
             continue
         v = compile_expr(ctx, env, ex, fty)
         unify(v.ty, fty, f"field `{fname}` of `{name}`")
-        parts.append(f"{fname} := {v.code}")
+        parts.append(f"{STRUCTS[name].get('lean_fields', {}).get(fname, fname)} := {v.code}")
     if given:
         raise TErr(f"struct literal `{name}`: unknown field(s) {sorted(given)}")
-    return Val("({ " + ", ".join(parts) + " } : " + name + ")", STRUCT(name), atomic=True)
+    return Val("({ " + ", ".join(parts) + " } : " + STRUCTS[name].get("extern", name) + ")", STRUCT(name), atomic=True)
 
 
 def compile_closure(ctx, env, lam, param_tys, ret_ty):
@@ -1608,12 +1808,30 @@ def compile_call(ctx, env, e, expect):
             return new_container(TVar())
         if segs in (["Vec", "new"], ["VecDeque", "new"]) and not args:
             return new_container(TVar())
+        if segs == ["BTreeSet", "new"] and not args:
+            if ctx.sinfo.get("extern"):
+                tv = TVar()
+                return Val(f"([] : {lean_ty(tv)})", tv, atomic=True)
+            return Val("([] : List Nat)", SET(TVar()), atomic=True)
+        if segs == ["BTreeMap", "new"] and not args:
+            return Val("([] : NatMap)", MAP, atomic=True)
         if segs == ["BinaryHeap", "with_capacity"] and len(args) == 1:
             if ctx.sinfo.get("heap") is None:
                 raise TErr("`BinaryHeap` in a struct without a heap in the typed field model")
             n = compile_expr(ctx, env, args[0], NAT)
             unify(n.ty, NAT, "capacity")
             return Val("([] : Heap)", LIST(ENTRY), atomic=True)
+        if segs == ["Tarjan", "new"] and len(args) == 1 and ctx.sinfo.get("tarjan_external"):
+            gv = compile_expr(ctx, env, args[0])
+            if gv.ty != GRAPH_T:
+                raise TErr("`Tarjan::new` of something that is not a digraph")
+            return Val(gv.code, ("tarjanOf",), atomic=gv.atomic, stable=gv.stable)
+        if segs == ["Self", "empty"] and len(args) == 1 and "extern" in ctx.sinfo:
+            n = compile_expr(ctx, env, args[0], NAT)
+            unify(n.ty, NAT, "order")
+            tmp = ctx.fresh_tmp()
+            ctx.em.emit(f"let {tmp} ← optP ({ctx.sinfo['extern']}.empty {n.p()})")
+            return Val(tmp, STRUCT(ctx.sname), atomic=True, stable=True)
         if len(segs) == 2 and (segs[0] in STRUCTS or segs[0] == "Self"):
             sname = ctx.sname if segs[0] == "Self" else segs[0]
             return compile_fn_call(ctx, env, sname, segs[1], None, args)
@@ -1626,17 +1844,23 @@ def compile_fn_call(ctx, env, sname, rfn, recv_place, args):
     if sig is None:
         raise TErr(f"call of `{sname}::{rfn}`, which is not (yet) a generated definition")
     pre = []
-    if sig["g"]:
-        if STRUCTS[sname]["graph"] != ctx.sinfo["graph"]:
-            raise TErr(f"call of `{sname}::{rfn}` with a different digraph kind")
-        ctx.use_global("g")
-        pre.append("g")
-    if sig["inf"]:
-        ctx.use_global("inf")
-        pre.append("inf")
-    if sig["fuel"]:
-        ctx.use_global("fuel")
-        pre.append("fuel")
+    if sig.get("rec") and sname == ctx.sname and rfn == ctx.rfn:
+        # the recursive call: `recf` is the function applied to the smaller fuel
+        ctx.use_global("recf")
+        head = "recf"
+    else:
+        head = f"{sname}.{sig['lean']}"
+        if sig["g"]:
+            if STRUCTS[sname]["graph"] != ctx.sinfo["graph"]:
+                raise TErr(f"call of `{sname}::{rfn}` with a different digraph kind")
+            ctx.use_global("g")
+            pre.append("g")
+        if sig["inf"]:
+            ctx.use_global("inf")
+            pre.append("inf")
+        if sig["fuel"]:
+            ctx.use_global("fuel")
+            pre.append("fuel")
     if sig["self_mode"] is not None:
         if recv_place is None:
             raise TErr(f"`{sname}::{rfn}` needs a receiver")
@@ -1645,20 +1869,31 @@ def compile_fn_call(ctx, env, sname, rfn, recv_place, args):
         pre.append(rv.p())
     if len(args) != len(sig["params"]):
         raise TErr(f"`{sname}::{rfn}`: arity mismatch")
+    mutplaces = []
     for a, (pn, pt) in zip(args, sig["params"]):
         pt = instantiate(pt)
         ptp = prune(pt)
-        if not isinstance(ptp, TVar) and ptp[0] == "fn":
+        if pn in sig.get("mutrefs", []):
+            # `&mut x` / a `&mut` parameter handed on: the variable is updated after the call
+            pl = place_of(a[2]) if a[0] == "un" and a[1] == "&" else place_of(a)
+            if pl is None:
+                raise TErr(f"argument `{pn}` of `{sname}::{rfn}` must be a variable (`&mut x`)")
+            mutplaces.append(pl)
+            v = place_val(ctx, env, pl)
+        elif not isinstance(ptp, TVar) and ptp[0] == "fn":
             v = compile_closure(ctx, env, a, ptp[1], ptp[2])
         else:
             v = compile_expr(ctx, env, a, pt)
         unify(v.ty, pt, f"argument `{pn}` of `{sname}::{rfn}`")
         pre.append(v.p())
     tmp = ctx.fresh_tmp()
-    ctx.em.emit(f"let {tmp} ← call ({sname}.{sig['lean']} " + " ".join(pre) + ")")
+    ctx.em.emit(f"let {tmp} ← call ({head}" + "".join(" " + x for x in pre) + ")")
     if sig["self_mode"] == "mut":
-        place_set(ctx, env, recv_place, f"{tmp}.2")
-        return Val(f"{tmp}.1", sig["value_ty"], atomic=True, stable=True)
+        n = 2 + len(mutplaces)
+        place_set(ctx, env, recv_place, proj(tmp, 1, n))
+        for i, pl in enumerate(mutplaces):
+            place_set(ctx, env, pl, proj(tmp, 2 + i, n))
+        return Val(proj(tmp, 0, n), sig["value_ty"], atomic=True, stable=True)
     return Val(tmp, sig["value_ty"], atomic=True, stable=True)
 
 
@@ -1680,8 +1915,30 @@ def compile_mcall(ctx, env, e, expect):
             return compile_fn_call(ctx, env, rt[1], name, pl, args)
     r = compile_expr(ctx, env, recv)
     t = prune(r.ty)
+    if not isinstance(t, TVar) and t[0] == "struct" and "extern" in STRUCTS.get(t[1], {}):
+        if name == "order" and not args:
+            return Val(f"{r.p()}.order", NAT, atomic=True)
+        if name == "arcs" and not args:
+            return Val(f"{r.p()}.arcs", LIST(TUP(NAT, NAT)), atomic=True)
+        raise TErr(f"method `.{name}` of `{t[1]}` is outside the supported subset")
     if t == GRAPH_T:
         kind = ctx.sinfo["graph"]
+        gc = r.p()
+        if kind in ("VGraph", "AM"):
+            if name == "vertices" and not args:
+                return Val(f"{gc}.verts", LIST(NAT), atomic=True)
+            if name == "order" and not args and kind == "AM":
+                return Val(f"{gc}.order", NAT, atomic=True)
+            if name == "out_neighbors" and len(args) == 1:
+                # `out_neighbors(u)` of a digraph given by its vertex list asserts that `u` is a vertex
+                u = compile_expr(ctx, env, args[0], NAT)
+                unify(u.ty, NAT, "argument of out_neighbors")
+                ctx.em.emit(f"assert ({gc}.verts.contains {u.p()})")
+                return Val(f"{gc}.out {u.p()}", LIST(NAT))
+            if name == "filter_vertices" and len(args) == 1 and kind == "AM":
+                f = compile_closure(ctx, env, args[0], [NAT], BOOL)
+                return Val(f"Johnson.AM.filter {gc} ({f.code})", GRAPH_T)
+            raise TErr(f"digraph method `.{name}` is outside the supported subset for a `{kind}`")
         if name in ("order", "contiguous_order") and not args:
             return Val("g.n", NAT, atomic=True)
         if name == "vertices" and not args:
@@ -1697,13 +1954,15 @@ def compile_mcall(ctx, env, e, expect):
         if name == "arcs_weighted" and not args and kind == "WGraph":
             return Val("arcsWeighted g", LIST(TUP(NAT, NAT, INT)))
         raise TErr(f"digraph method `.{name}` is outside the supported subset for a `{kind}`")
-    if isinstance(t, TVar):
+    if isinstance(t, TVar) and not t.numeric:
         if name in ("push", "push_back", "len", "get", "pop", "pop_front", "iter", "collect", "map"):
             unify(t, LIST(TVar()), f"receiver of .{name}")
             t = prune(t)
         else:
             raise TErr(f"`.{name}` on a value of unknown type")
-    if t[0] == "list":
+    if isinstance(t, TVar):
+        pass
+    elif t[0] == "list":
         if name == "len" and not args:
             return Val(f"{r.p()}.length", NAT, atomic=True)
         if name in ("iter", "copied", "cloned", "into_iter", "by_ref") and not args:
@@ -1718,8 +1977,74 @@ def compile_mcall(ctx, env, e, expect):
             rt = TVar()
             f = compile_closure(ctx, env, args[0], [t[1]], rt)
             return Val(f"List.map ({f.code}) {r.p()}", LIST(rt))
+        if name == "enumerate" and not args:
+            return Val(f"List.map (fun p => (p.2, p.1)) {r.p()}.zipIdx", LIST(TUP(NAT, t[1])))
+        if name == "is_empty" and not args:
+            return Val(f"{r.p()}.isEmpty", BOOL, atomic=True)
+        if name == "contains_key" and len(args) == 1:
+            et = prune(t[1])
+            if isinstance(et, TVar) or et[0] != "tup" or len(et[1]) != 2 or prune(et[1][0]) != NAT:
+                raise TErr(f"`{unparse(e)}`: `contains_key` on something that is not a key-value list")
+            k = compile_expr(ctx, env, args[0], NAT)
+            unify(k.ty, NAT, "map key")
+            return Val(f"(Repr.mget {k.p()} {r.p()}).isSome", BOOL, atomic=True)
+        if name == "all" and len(args) == 1:
+            f = compile_closure(ctx, env, args[0], [t[1]], BOOL)
+            return Val(f"List.all {r.p()} ({f.code})", BOOL)
+        if name == "clone" and not args:
+            return r
+        if name == "min_by_key" and len(args) == 1:
+            # `.min_by_key(|x| x.iter().min())` on a list of ascending sets: the first of the sets with the
+            # smallest least element (`None < Some _`) - the hand-written `minByKey`
+            lam = args[0]
+            et = prune(t[1])
+            ok = (lam[0] == "closure" and len(lam[1]) == 1 and strip_pref(lam[1][0])[0] == "pvar"
+                  and not isinstance(et, TVar) and et[0] == "set" and prune(et[1]) == KA)
+            if ok:
+                x = strip_pref(lam[1][0])[1]
+                body = strip_wrappers(lam[2])
+                ok = (body[0] == "mcall" and body[2] == "min" and not body[4]
+                      and strip_wrappers(body[1])[0] == "mcall" and strip_wrappers(body[1])[2] == "iter"
+                      and strip_wrappers(strip_wrappers(body[1])[1]) == ("var", x))
+            if not ok:
+                raise TErr(f"`{unparse(e)}`: only `.min_by_key(|x| x.iter().min())` on a list of ascending sets is supported")
+            return Val(f"minByKeyMin {r.p()}", OPT(t[1]))
         raise TErr(f"`.{name}` on a vector is outside the supported subset here (`{unparse(e)}`)")
-    if t[0] == "opt":
+    if isinstance(t, TVar):
+        pass
+    elif t[0] == "map":
+        if name == "get" and len(args) == 1:
+            k = compile_expr(ctx, env, args[0], NAT)
+            unify(k.ty, NAT, "map key")
+            return Val(f"mapGet {r.p()} {k.p()}", OPT(NAT))
+        if name == "contains_key" and len(args) == 1:
+            k = compile_expr(ctx, env, args[0], NAT)
+            unify(k.ty, NAT, "map key")
+            return Val(f"(mapGet {r.p()} {k.p()}).isSome", BOOL, atomic=True)
+    if not isinstance(t, TVar) and t[0] == "set":
+        if name == "contains" and len(args) == 1:
+            k = compile_expr(ctx, env, args[0], NAT)
+            unify(k.ty, NAT, "set element")
+            return Val(f"{r.p()}.contains {k.p()}", BOOL)
+        if name == "iter" and not args:
+            unify(t[1], KA, "`.iter()` needs the ascending representation of the set")
+            return Val(r.code, ("setiter",), atomic=r.atomic, stable=r.stable)
+    if not isinstance(t, TVar) and t[0] == "setiter":
+        if name == "min" and not args:
+            return Val(f"{r.p()}.head?", OPT(NAT), atomic=True)
+    if not isinstance(t, TVar) and t[0] == "tarjanOf":
+        if name == "components" and not args:
+            return Val(f"Johnson.tarjan {r.p()}", LIST(SET(KA)))
+    if t in (NAT, INT) or (isinstance(t, TVar) and t.numeric):
+        if name in ("min", "max") and len(args) == 1 and (name == "min" or ctx.sinfo.get("extern")):
+            b = compile_expr(ctx, env, args[0], r.ty)
+            unify(b.ty, r.ty, f"operands of .{name}")
+            return Val(f"{name} {r.p()} {b.p()}", r.ty)
+    if not isinstance(t, TVar) and t[0] == "opt":
+        if name == "unwrap" and not args:
+            tmp = ctx.fresh_tmp()
+            ctx.em.emit(f"let {tmp} ← unwrapO {r.p()}")
+            return Val(tmp, t[1], atomic=True, stable=True)
         if name == "map" and len(args) == 1:
             rt = TVar()
             f = compile_closure(ctx, env, args[0], [t[1]], rt)
@@ -1854,6 +2179,15 @@ def collect_ptr_aliases(node, out):
             pl = place_of(init[1])
             if inner[0] == "pvar" and pl is not None:
                 set_alias(out, inner[1], pl[0])
+    if node[0] == "if" and node[1][0] == "letcond":
+        pat, init = strip_pref(node[1][1]), strip_wrappers(node[1][2])
+        if pat[0] == "pctor" and pat[1] == "Some" and len(pat[2]) == 1 and init[0] == "mcall" and init[2] == "as_mut":
+            inner = strip_pref(pat[2][0])
+            base = strip_wrappers(init[1])
+            if inner[0] == "pvar" and base[0] == "mcall" and base[2] == "add":
+                b0 = strip_wrappers(base[1])
+                if b0[0] == "var" and b0[1] in out:
+                    set_alias(out, inner[1], out[b0[1]])
     for x in node[1:]:
         if isinstance(x, (tuple, list)):
             collect_ptr_aliases(x, out)
@@ -1926,7 +2260,17 @@ def mutated_vars(ctx, node, scopes, out):
             if sig is not None and sig["self_mode"] == "mut":
                 hit("self")
         mutated_vars(ctx, node[1], scopes, out)
-        for a in node[4]:
+        sig = None
+        rr = root_of(node[1])
+        if rr is not None and strip_wrappers(node[1])[0] == "var":
+            for (sn, fn), sg in ctx.fntab.items():
+                if fn == node[2] and sg.get("mutrefs"):
+                    sig = sg
+        for i, a in enumerate(node[4]):
+            if sig is not None and i < len(sig["params"]) and sig["params"][i][0] in sig["mutrefs"]:
+                r = root_of(a)
+                if r is not None:
+                    hit(r)
             mutated_vars(ctx, a, scopes, out)
         return
     if k == "for":
@@ -2069,6 +2413,26 @@ def opt_scrutinee(ctx, env, e):
             place_set(ctx, env, pl, f"{tmp}.2")
             return Val(f"{tmp}.1", t[1], atomic=True, stable=True)
         return f"{fn} {pv.p()}", hook, True
+    if se[0] == "mcall" and se[2] == "pop_first" and not se[4]:
+        ep = elem_place(ctx, env, se[1])
+        if ep is None:
+            raise TErr(f"`{unparse(se)}`: `pop_first` is supported on a set reached through an element pointer only")
+        place, i, site = ep
+        et = prune(prune(place_val(ctx, env, place).ty)[1])
+        if isinstance(et, TVar) or et[0] != "set":
+            raise TErr(f"`{unparse(se)}`: not a set")
+        unify(et[1], KA, "`pop_first` needs the ascending representation of the set")
+        pv = place_val(ctx, env, place)
+        old = ctx.fresh_tmp()
+        ctx.em.emit(f"let {old} ← rd {site} {pv.p()} {i.p()}")
+
+        def hook(tmp):
+            pv2 = place_val(ctx, env, place)
+            t2 = ctx.fresh_tmp()
+            ctx.em.emit(f"let {t2} ← wr {site} {pv2.p()} {i.p()} {tmp}.2")
+            place_set(ctx, env, place, t2)
+            return Val(f"{tmp}.1", NAT, atomic=True, stable=True)
+        return f"popFront {old}", hook, True
     if se[0] == "mcall" and se[2] == "get_mut" and len(se[4]) == 1:
         pl = place_of(se[1])
         if pl is None:
@@ -2186,10 +2550,87 @@ def compile_let(ctx, env, st):
         v = compile_loop(ctx, env, sinit, with_value=True)
         bind_pattern(ctx, env, pat, v, True)
         return False
+    if sp[0] == "pwild" and sinit[0] == "mcall" and compile_discarded_call(ctx, env, sinit):
+        return False
     v = compile_expr(ctx, env, init)
-    if v.ty == GRAPH_T:
+    if v.ty == GRAPH_T and ctx.sinfo["graph"] in ("Graph", "WGraph"):
         raise TErr("binding the digraph reference to a local variable is outside the supported subset")
     bind_pattern(ctx, env, pat, v, True)
+    return False
+
+
+def compile_elem_method(ctx, env, ep, name, args, e):
+    """a mutating method on a vector element reached through a pointer: read, update, write back"""
+    place, i, site = ep
+    et = prune(prune(place_val(ctx, env, place).ty)[1])
+    if isinstance(et, TVar) or et[0] != "set":
+        raise TErr(f"`{unparse(e)}`: method on a vector element that is not a set")
+    if name == "insert" and len(args) == 1:
+        k = compile_expr(ctx, env, args[0], NAT)
+        unify(k.ty, NAT, "set element")
+        elem_update(ctx, env, ep, lambda old: f"(setInsert{kind_suffix(et[1])} {k.p()} {old.code})")
+        return True
+    if name == "remove" and len(args) == 1:
+        k = compile_expr(ctx, env, args[0], NAT)
+        unify(k.ty, NAT, "set element")
+        elem_update(ctx, env, ep, lambda old: f"(setRemove {k.p()} {old.code})")
+        return True
+    if name == "clear" and not args:
+        pv = place_val(ctx, env, place)
+        tmp = ctx.fresh_tmp()
+        ctx.em.emit(f"let {tmp} ← wr {site} {pv.p()} {i.p()} []")
+        place_set(ctx, env, place, tmp)
+        return True
+    raise TErr(f"`{unparse(e)}`: method `.{name}` on a vector element is outside the supported subset")
+
+
+def compile_discarded_call(ctx, env, e):
+    """`let _ = x.insert(..)` / `x.remove(..)` / `v.pop()` / a call of a generated method: the value is
+    dropped, the receiver is updated.  Returns False when `e` is none of these."""
+    recv, name, args = e[1], e[2], e[4]
+    ep = elem_place(ctx, env, recv)
+    if ep is not None:
+        return compile_elem_method(ctx, env, ep, name, args, e)
+    pl = place_of(recv)
+    if pl is None or pl[0] not in env or env[pl[0]].kind != "val":
+        return False
+    pv = place_val(ctx, env, pl)
+    t = prune(pv.ty)
+    if isinstance(t, TVar) and name == "insert" and len(args) == 1:
+        a0 = strip_wrappers(args[0])
+        unify(t, PSET if a0[0] == "tup" else SET(TVar()), "receiver of .insert")
+        t = prune(t)
+    if isinstance(t, TVar):
+        return False
+    if t == PSET and name == "insert" and len(args) == 1:
+        v = compile_expr(ctx, env, args[0], TUP(NAT, NAT))
+        unify(v.ty, TUP(NAT, NAT), "pair set element")
+        pv = place_val(ctx, env, pl)
+        place_set(ctx, env, pl, f"Repr.pinsert {v.p()} {pv.p()}")
+        return True
+    if t[0] == "struct" and (t[1], name) in ctx.fntab:
+        compile_fn_call(ctx, env, t[1], name, pl, args)
+        return True
+    if t == MAP and name == "insert" and len(args) == 2:
+        k = compile_expr(ctx, env, args[0], NAT)
+        unify(k.ty, NAT, "map key")
+        v = compile_expr(ctx, env, args[1], NAT)
+        unify(v.ty, NAT, "map value")
+        pv = place_val(ctx, env, pl)
+        place_set(ctx, env, pl, f"mapSet {pv.p()} {k.p()} {v.p()}")
+        return True
+    if t[0] == "set" and name in ("insert", "remove") and len(args) == 1:
+        k = compile_expr(ctx, env, args[0], NAT)
+        unify(k.ty, NAT, "set element")
+        pv = place_val(ctx, env, pl)
+        if name == "insert":
+            place_set(ctx, env, pl, f"setInsert{kind_suffix(t[1])} {k.p()} {pv.p()}")
+        else:
+            place_set(ctx, env, pl, f"setRemove {k.p()} {pv.p()}")
+        return True
+    if t[0] == "list" and name == "pop" and not args and prune(t[1]) != ENTRY:
+        place_set(ctx, env, pl, f"{pv.p()}.dropLast")
+        return True
     return False
 
 
@@ -2230,6 +2671,21 @@ def compile_if(ctx, env, e):
         inner_pat = some_pattern(cond[1])
         if inner_pat is None:
             raise TErr("`if let` is supported for `Some(..)` patterns only")
+        sc = strip_wrappers(cond[2])
+        if sc[0] == "mcall" and sc[2] == "as_mut" and not sc[4]:
+            pe = eval_ptr(ctx, env, sc[1])
+            ip = strip_pref(inner_pat)
+            if pe is None or pe[0] != "elem" or ip[0] != "pvar" or el is not None:
+                raise TErr(f"`{unparse(cond)}`: only `if let Some(x) = p.add(i).as_mut() {{ .. }}` (no `else`) is supported")
+            # the buffer pointer of a vector offset by `i` is not null: the branch is always taken and `x` is
+            # the element `i` (out of range = `ub` at the use)
+            idx_ast = strip_wrappers(sc[1])[4][0]
+            check_immutable_index(env, idx_ast, f"`{unparse(cond)}`")
+            inner = dict(env)
+            check_no_alias_root(inner, ip[1])
+            ctx.new_bind(inner, Bind("elem", ip[1], place=pe[1], idx=idx_ast, site=pe[3], as_ref=True))
+            _, div = compile_stmts(ctx, inner, th)
+            return div
         M = state_binds(ctx, env, [("expr", e, True)])
         code, hook, wrapped = opt_scrutinee(ctx, env, cond[2])
         head, tmp = open_bind(ctx, M)
@@ -2379,6 +2835,10 @@ def compile_stmt_expr(ctx, env, e):
         return True
     if k == "mcall":
         recv, name, args = e[1], e[2], e[4]
+        ep = elem_place(ctx, env, recv)
+        if ep is not None:
+            compile_elem_method(ctx, env, ep, name, args, e)
+            return False
         if name in ("push", "push_back") and len(args) == 1:
             pl = place_of(recv)
             if pl is None:
@@ -2398,6 +2858,30 @@ def compile_stmt_expr(ctx, env, e):
                 place_set(ctx, env, pl, f"{v.code} :: {pv.code}")
             else:
                 place_set(ctx, env, pl, f"{pv.code} ++ [{v.code}]")
+            return False
+        if name in ("add_arc", "add_arc_weighted"):
+            pl = place_of(recv)
+            if pl is None:
+                raise TErr(f"`{unparse(e)}`: receiver is not a variable")
+            pv = place_val(ctx, env, pl)
+            t = prune(pv.ty)
+            if isinstance(t, TVar) or t[0] != "struct" or "extern" not in STRUCTS.get(t[1], {}):
+                raise TErr(f"`{unparse(e)}`: not a representation value")
+            want = 2 if name == "add_arc" else 3
+            if len(args) != want:
+                raise TErr(f"`{unparse(e)}`: arity")
+            vs = [compile_expr(ctx, env, a, NAT) for a in args[:2]]
+            for v in vs:
+                unify(v.ty, NAT, "vertex argument")
+            lname2 = "addArc"
+            if want == 3:
+                w = compile_expr(ctx, env, args[2], INT)
+                unify(w.ty, INT, "weight argument")
+                vs.append(w)
+                lname2 = "addArcWeighted"
+            tmp = ctx.fresh_tmp()
+            ctx.em.emit(f"let {tmp} ← optP ({pv.p()}.{lname2} " + " ".join(v.p() for v in vs) + ")")
+            place_set(ctx, env, pl, tmp)
             return False
         if name == "reverse" and not args:
             pl = place_of(recv)
@@ -2463,11 +2947,16 @@ def emit_loop_def(ctx, env, key, what, S, brk_ty_of, item, build, self_param=Non
             raise TErr(f"internal: captured binding `{b.rust}` is not a value")
     gl = []
     if "g" in frame.globals:
-        gl.append(("g", ctx.sinfo["graph"]))
+        gl.append(("g", lean_ty(GRAPH_T)))
     if "inf" in frame.globals:
         gl.append(("inf", lean_ty(ctx.sinfo["sentinel"])))
     if "fuel" in frame.globals:
         gl.append(("fuel", "Nat"))
+    if "recf" in frame.globals:
+        sig = ctx.fntab[(ctx.sname, ctx.rfn)]
+        rt = " → ".join([ctx.sname] + [lean_ty(t, prec=1) for _, t in sig["params"]]
+                        + ["Res " + lean_ty(ctx.res_ty(), True)])
+        gl.append(("recf", rt))
     sty = lean_ty(tuple_ty(S), True)
     params = [f"({n} : {t})" for n, t in gl] + [f"({b.lean} : {lean_ty(b.ty)})" for b in caps]
     if self_param is not None and self_param():
@@ -2683,6 +3172,16 @@ def compile_loop(ctx, env, e, with_value):
 # ============================================================================================
 # 6. Functions, files, output
 # ============================================================================================
+def calls_self_method(node, rfn):
+    if isinstance(node, list):
+        return any(calls_self_method(x, rfn) for x in node)
+    if not isinstance(node, tuple) or not node:
+        return False
+    if node[0] == "mcall" and node[2] == rfn and strip_wrappers(node[1]) == ("var", "self"):
+        return True
+    return any(calls_self_method(x, rfn) for x in node[1:] if isinstance(x, (tuple, list)))
+
+
 def rust_ty(text, ctx_struct, aliases, bounds):
     """model type of a Rust type text (blanks removed)."""
     t = text.replace(" ", "")
@@ -2704,6 +3203,12 @@ def rust_ty(text, ctx_struct, aliases, bounds):
         return sinfo["item"][1]
     if t in aliases:
         return rust_ty(aliases[t], ctx_struct, aliases, bounds)
+    if t == "BTreeMap<usize,usize>":
+        return MAP
+    if t == "BTreeMap<usize,W>":
+        return LIST(TUP(NAT, INT))
+    if t == "BTreeSet<usize>":
+        return SET(KA) if STRUCTS[ctx_struct].get("extern") else SET(TVar())
     m = re.match(r"(Option|Vec|VecDeque)<(.*)>\Z", t)
     if m:
         inner = rust_ty(m.group(2), ctx_struct, aliases, bounds)
@@ -2738,6 +3243,10 @@ def parse_bounds(ret_text, ctx_struct, aliases):
         if mi:
             out[name] = LIST(rust_ty(mi.group(1), ctx_struct, aliases, {}))
             continue
+        mi = re.match(r"IntoIterator<Item=(.+)>\Z", bound)
+        if mi:
+            out[name] = LIST(rust_ty(mi.group(1), ctx_struct, aliases, {}))
+            continue
         mf = re.match(r"Fn\((.*)\)->(.+)\Z", bound)
         if mf:
             args = [rust_ty(x, ctx_struct, aliases, {}) for x in split_top(mf.group(1), ",") if x]
@@ -2752,6 +3261,8 @@ def parse_bounds(ret_text, ctx_struct, aliases):
 def check_graph_bounds(sname, region):
     """the digraph kind of the typed model must agree with the trait bounds used in the file."""
     kind = STRUCTS[sname]["graph"]
+    if kind not in ("Graph", "WGraph"):
+        return
     weighted = bool(re.search(r"\b(OutNeighborsWeighted|ArcsWeighted)\b", region))
     if kind == "Graph" and weighted:
         raise TErr(f"{sname}: the file uses weighted digraph traits but the typed model says `Graph`")
@@ -2765,13 +3276,21 @@ def file_aliases(region):
 
 def translate_fn(sname, trait, rfn, lname, opts, params_text, ret_text, body_text, fntab, aliases):
     ctx = Ctx(sname, rfn, lname, fntab, aliases)
-    ctx.impl_label = f"impl {trait} for {sname}" if trait else f"impl {sname}"
+    CUR["graph"] = STRUCTS[sname]["graph"] or "Graph"
+    if trait and trait.startswith("@"):
+        mname, src = trait[1:].split(":")
+        ctx.impl_label = f"impl From<{src}> for {sname} (macro {mname}!)"
+    else:
+        ctx.impl_label = f"impl {trait} for {sname}" if trait else f"impl {sname}"
     bounds = parse_bounds(ret_text, sname, aliases)
     ret_only = squeeze(ret_text.split("where", 1)[0]).strip()
     if not ret_only.startswith("->"):
-        raise TErr("a function without return type is outside the supported subset")
-    ret_rust = ret_only[2:].strip()
-    ctx.value_ty = opts.get("ret") or rust_ty(ret_rust, sname, aliases, bounds)
+        if ret_only:
+            raise TErr(f"cannot read the return type `{ret_only}`")
+        ctx.value_ty = UNIT
+    else:
+        ret_rust = ret_only[2:].strip()
+        ctx.value_ty = opts.get("ret") or rust_ty(ret_rust, sname, aliases, bounds)
     env = {}
     params = []
     for part in split_top(params_text, ","):
@@ -2792,7 +3311,22 @@ def translate_fn(sname, trait, rfn, lname, opts, params_text, ret_text, body_tex
         if re.match(r"&(?:'\w+)?D\Z", ty):
             if STRUCTS[sname]["graph"] is None:
                 raise TErr("a digraph parameter in a struct without digraph")
-            ctx.new_bind(env, Bind("graph", name))
+            if ctx.self_mode is None:
+                ctx.new_bind(env, Bind("graph", name))      # the constructor's digraph: the parameter `g`
+                continue
+            lean = ctx.fresh_name(name)
+            ctx.new_bind(env, Bind("val", name, lean=lean, ty=GRAPH_T, mut=False, stable=True))
+            params.append((lean, GRAPH_T, name))
+            continue
+        mm = re.match(r"&mut(.+)\Z", ty)
+        if mm:
+            # a `&mut T` parameter: an ordinary mutable variable whose final value is returned with the result
+            t = rust_ty(mm.group(1), sname, aliases, bounds)
+            lean = ctx.fresh_name(name)
+            ctx.new_bind(env, Bind("val", name, lean=lean, ty=t, mut=True, stable=False))
+            params.append((lean, t, name))
+            ctx.mutrefs.append(name)
+            ctx.mutref_tys[name] = t
             continue
         t = rust_ty(ty, sname, aliases, bounds)
         lean = ctx.fresh_name(name)
@@ -2800,32 +3334,58 @@ def translate_fn(sname, trait, rfn, lname, opts, params_text, ret_text, body_tex
         params.append((lean, t, name))
     stmts = parse_body(body_text)
     collect_ptr_aliases(stmts, ctx.ptr_alias)
-    ctx.em = Emitter(2)
+    # a self-recursive method: structural recursion on fuel; the loop bodies get the recursive
+    # function (already applied to the smaller fuel) as the parameter `recf`
+    ctx.recursive = calls_self_method(stmts, rfn)
+    if ctx.recursive:
+        if ctx.self_mode is None:
+            raise TErr("recursion is supported for methods only")
+        fntab[(sname, rfn)] = dict(lean=lname, g=False, inf=False, fuel=True, self_mode=ctx.self_mode,
+                                   params=[(n, t) for _, t, n in params], value_ty=ctx.value_ty, rec=True,
+                                   mutrefs=list(ctx.mutrefs))
+    ctx.em = Emitter(4 if ctx.recursive else 2)
     val, div = compile_stmts(ctx, env, stmts, want_value=True)
     if not div:
         if val is None:
-            raise TErr("the function body has no tail value")
+            if prune(ctx.value_ty) != UNIT:
+                raise TErr("the function body has no tail value")
+            val = Val("()", UNIT, atomic=True)
         unify(val.ty, ctx.value_ty, "value of the function body")
         ctx.em.emit(f"pure {ctx.result(env, val)}")
     top = ctx.frames[0]
     gl = []
     if "g" in top.globals:
-        gl.append(("g", ctx.sinfo["graph"]))
+        gl.append(("g", lean_ty(GRAPH_T)))
     if "inf" in top.globals:
         gl.append(("inf", lean_ty(ctx.sinfo["sentinel"])))
     if "fuel" in top.globals:
         gl.append(("fuel", "Nat"))
-    ps = [f"({n} : {t})" for n, t in gl]
-    if ctx.self_mode is not None:
-        ps.append(f"(self : {sname})")
-    ps += [f"({lean} : {lean_ty(t)})" for lean, t, _ in params]
     name = f"{sname}.{lname}"
-    sig = f"def {name} " + " ".join(ps) + f" :\n    Res {lean_ty(ctx.res_ty(), True)} := fnBody do"
     doc = f"/-- `{ctx.file}`: `{ctx.impl_label}`, fn `{rfn}` -/"
+    if ctx.recursive:
+        gl = [x for x in gl if x[0] != "fuel"]
+        ps = [f"({n} : {t})" for n, t in gl]
+        arg_tys = [sname] + [lean_ty(t, prec=1) for _, t, _ in params]
+        pats = ["self"] + [lean for lean, _, _ in params]
+        rty = f"Res {lean_ty(ctx.res_ty(), True)}"
+        recapp = " ".join([name] + [n for n, _ in gl] + ["fuel"])
+        sig = (f"def {name} " + " ".join(ps) + (" " if ps else "") + ": Nat → " + " → ".join(arg_tys) + f" →\n    {rty}\n"
+               + "  | 0, " + ", ".join("_" for _ in pats) + " => .error .div\n"
+               + "  | fuel + 1, " + ", ".join(pats) + " => fnBody do\n"
+               + f"    let recf := {recapp}")
+        doc = doc[:-3] + " (recursive: structural recursion on fuel, `div` when it runs out) -/"
+    else:
+        ps = [f"({n} : {t})" for n, t in gl]
+        if ctx.self_mode is not None:
+            ps.append(f"(self : {sname})")
+        ps += [f"({lean} : {lean_ty(t)})" for lean, t, _ in params]
+        sig = f"def {name}" + "".join(" " + x for x in ps) + f" :\n    Res {lean_ty(ctx.res_ty(), True)} := fnBody do"
     text = "\n".join(ctx.defs) + ("\n" if ctx.defs else "") + doc + "\n" + sig + "\n" + "\n".join(ctx.em.lines) + "\n"
     text = resolve_types(text)
-    fntab[(sname, rfn)] = dict(lean=lname, g="g" in top.globals, inf="inf" in top.globals, fuel="fuel" in top.globals,
+    fntab[(sname, rfn)] = dict(lean=lname, g="g" in top.globals, inf="inf" in top.globals,
+                               fuel=ctx.recursive or "fuel" in top.globals,
                                self_mode=ctx.self_mode, params=[(n, t) for _, t, n in params], value_ty=ctx.value_ty,
+                               rec=ctx.recursive, mutrefs=list(ctx.mutrefs),
                                ndefs=len(ctx.defs) + 1,
                                defs=[re.match(r"def (\S+)", l).group(1) for l in text.splitlines() if l.startswith("def ")])
     return text
@@ -2860,18 +3420,90 @@ def struct_decl(sname):
     return "\n".join(lines) + "\n"
 
 
-def load(repo):
+def structs_of(targets):
+    """the structs a target list needs (with the structs their fields contain), in table order"""
+    need = {r[0] for r in targets}
+    for r in targets:
+        if r[1] and r[1].startswith("@"):
+            need.add(r[1].split(":")[1])
+    grew = True
+    while grew:
+        grew = False
+        for sname in list(need):
+            for _, _, ty in STRUCTS[sname]["fields"]:
+                if ty is not None and ty[0] == "struct" and ty[1] not in need:
+                    need.add(ty[1])
+                    grew = True
+    return [sname for sname in STRUCTS if sname in need]
+
+
+MACRO_RE = re.compile(r"^macro_rules!\s+(\w+)\s*\{", re.M)
+
+
+def macro_impls(region, sname):
+    """`macro_rules! m { ($type:ty[, $weight:ty]) => { impl From<$type> for <sname>[<$weight>] { fn from(..) {..} } }; }`
+    expanded textually for every invocation `m!(T[, W]);`: [("@m:T", {fn name: (params, ret, body)})].
+    Invocations with the same first argument (the two weight types of the weighted list) must expand to the
+    same text up to the weight type; they are one entry."""
+    out = []
+    for m in MACRO_RE.finditer(region):
+        name = m.group(1)
+        end = match_close(region, m.end(), "{", "}")
+        body = region[m.end():end - 1]
+        mm = re.match(r"\s*\(([^)]*)\)\s*=>\s*\{", body)
+        if not mm:
+            continue
+        params = [x.strip().split(":")[0] for x in mm.group(1).split(",") if x.strip()]
+        inner_end = match_close(body, mm.end(), "{", "}")
+        inner = body[mm.end():inner_end - 1]
+        if not re.search(r"impl\s+From<\$type>\s+for\s+" + sname + r"\b", inner):
+            continue
+        seen = {}
+        for inv in re.finditer(r"^" + name + r"!\(([^)]*)\);", region, re.M):
+            args = [x.strip() for x in inv.group(1).split(",")]
+            if len(args) != len(params):
+                raise TErr(f"macro {name}: invocation with {len(args)} argument(s), {len(params)} expected")
+            text = inner
+            for pn, a in zip(params, args):
+                text = text.replace(pn, a)
+            impls = impl_blocks(text.strip(), sname)
+            if len(impls) != 1 or impls[0][0] != "From":
+                raise TErr(f"macro {name}: the expansion is not a single `impl From<..> for {sname}`")
+            fns = fns_of(impls[0][1])
+            key = f"@{name}:{args[0]}"
+            norm = {k: tuple(squeeze(x) for x in v) for k, v in fns.items()}
+            if key in seen:
+                a0, n0 = seen[key]
+                strip_w = lambda d, w: {k: tuple(x.replace(w, "W") for x in v) for k, v in d.items()}
+                if len(args) < 2 or strip_w(norm, args[1]) != strip_w(n0, a0[1]):
+                    raise TErr(f"macro {name}: two invocations for {args[0]} expand differently")
+                continue
+            seen[key] = (args, norm)
+            out.append((key, fns))
+    return out
+
+
+def load(repo, targets):
     """per struct: (region, [(trait, fns)], aliases); checks the struct declaration against the typed model."""
     out = {}
-    for sname, info in STRUCTS.items():
-        path = os.path.join(repo, "src", "algo", info["file"])
+    for sname in structs_of(targets):
+        info = STRUCTS[sname]
+        path = os.path.join(repo, "src", info.get("dir", "algo"), info["file"])
         region = non_test_region(open(path).read())
         got = struct_fields(region, sname)
         want = [(f, rt) for f, rt, _ in info["fields"]]
         if got != want:
             raise TErr(f"{info['file']}: struct {sname} has fields {got}, the typed field model expects {want}")
         aliases = file_aliases(region)
-        blocks = [(trait, fns_of(b)) for trait, b in impl_blocks(region, sname)]
+        blocks = []
+        for trait, b in impl_blocks(region, sname):
+            fns = fns_of(b)
+            hdr = IMPL_HEADERS.get(id(b), "")
+            if "where" in hdr:
+                w = hdr.split("where", 1)[1].rstrip("{").strip().rstrip(",")
+                fns = {k: (v[0], v[1] + (" where " + w if "where" not in v[1] else ", " + w), v[2]) for k, v in fns.items()}
+            blocks.append((trait, fns))
+        blocks += macro_impls(region, sname)
         if info["item"] is not None:
             items = [squeeze(m.group(1)).replace(" ", "") for tr, b in impl_blocks(region, sname) if tr == "Iterator"
                      for m in re.finditer(r"type\s+Item\s*=\s*([^;]+);", b)]
@@ -2886,15 +3518,36 @@ def load(repo):
     return out
 
 
-def translate(repo):
+HEADER2 = '''import GraafVerif.Model.AlgoGenRt2
+/-!
+# GENERATED by tools/translate_algo.py --set 2 from {repo}/src — do not edit
+
+Second generated file of the imperative-Rust-subset → pure-Lean translator (`docs/AlgoGen.md`,
+"Set 2"): `src/algo/tarjan.rs`, `src/algo/johnson_75.rs` and the `From` conversions of
+`src/repr/*/mod.rs`.  `Thm/AlgoGen2.lean` proves every definition below equal to the hand-written
+model function (`Model/Tarjan.lean`, `Model/Johnson.lean`, `Model/Conv.lean`) that the property
+theorems C09, C10, C16 are about.  Runtime: `Model/AlgoGenRt.lean`, `Model/AlgoGenRt2.lean`.
+-/
+set_option linter.unusedVariables false
+namespace GraafVerif.AlgoGen
+
+'''
+
+SETS = {}
+GEN_ROWS = {}
+
+
+def translate(repo, which=1):
     TVar.counter = 0
     TVARS.clear()
-    srcs = load(repo)
+    targets, header = SETS[which]
+    GEN_ROWS.clear()
+    srcs = load(repo, targets)
     fntab = {}
-    out = [HEADER.replace("{repo}", repo)]
+    out = [header.replace("{repo}", repo)]
     declared = set()
-    for sname, trait, rfn, lname, opts in TARGETS:
-        if sname not in declared:
+    for sname, trait, rfn, lname, opts in targets:
+        if sname not in declared and "extern" not in STRUCTS[sname]:
             for f, rt, ty in STRUCTS[sname]["fields"]:
                 if ty is not None and ty[0] == "struct" and ty[1] not in declared:
                     out.append(struct_decl(ty[1]))
@@ -2910,6 +3563,7 @@ def translate(repo):
                 raise TErr("more than one matching impl")
             params, ret, body = cands[0][rfn]
             out.append(translate_fn(sname, trait, rfn, lname, opts, params, ret, body, fntab, aliases))
+            GEN_ROWS[(sname, trait, rfn)] = fntab[(sname, rfn)]
         except TErr as e:
             raise TErr(f"{STRUCTS[sname]['file']}: {trait or 'inherent'}::{rfn}: {e}")
     out.append("end GraafVerif.AlgoGen\n")
@@ -2921,24 +3575,25 @@ def translate(repo):
     return text, srcs, fntab
 
 
-def coverage(srcs, fntab):
-    targeted = {(r[0], r[1], r[2]): r[3] for r in TARGETS}
+def coverage(srcs, fntab, which=1):
+    targets = SETS[which][0]
+    targeted = {(r[0], r[1], r[2]): r[3] for r in targets}
     rows = []
     for sname in STRUCTS:
-        if sname == "DistanceMatrix":
+        if sname == "DistanceMatrix" or sname not in srcs or sname not in {r[0] for r in targets}:
             continue
         _, blocks, _ = srcs[sname]
         for trait, fns in blocks:
             for fn in fns:
                 k = (sname, trait, fn)
                 if k in targeted:
-                    sig = fntab[(sname, fn)]
+                    sig = GEN_ROWS[k]
                     aux = [d for d in sig["defs"] if d != f"{sname}.{targeted[k]}"]
                     note = f"`AlgoGen.{sname}.{targeted[k]}`" + (" + " + ", ".join(f"`{a.split('.', 1)[1]}`" for a in aux) if aux else "")
                     rows.append((sname, trait, fn, "covered", note))
                 elif k in NOT_COVERED:
                     rows.append((sname, trait, fn, "not covered", NOT_COVERED[k]))
-                else:
+                elif "extern" not in STRUCTS[sname]:
                     rows.append((sname, trait, fn, "not targeted", ""))
     return rows
 
@@ -2946,37 +3601,50 @@ def coverage(srcs, fntab):
 def coverage_md(rows):
     lines = ["| file | impl | fn | status | generated defs / reason |", "|---|---|---|---|---|"]
     for r in rows:
-        lines.append(f"| `{STRUCTS[r[0]]['file']}` | `{('impl ' + r[1] + ' for ' + r[0]) if r[1] else 'impl ' + r[0]}` | `{r[2]}` | {r[3]} | {r[4]} |")
+        fn = STRUCTS[r[0]]["file"] if "dir" not in STRUCTS[r[0]] else STRUCTS[r[0]]["dir"] + "/" + STRUCTS[r[0]]["file"]
+        if r[1] and r[1].startswith("@"):
+            label = f"impl From<{r[1].split(':')[1]}> for {r[0]} ({r[1][1:].split(':')[0]}!)"
+        else:
+            label = ("impl " + r[1] + " for " + r[0]) if r[1] else "impl " + r[0]
+        lines.append(f"| `{fn}` | `{label}` | `{r[2]}` | {r[3]} | {r[4]} |")
     return "\n".join(lines)
 
 
 def main():
     root = os.path.dirname(os.path.dirname(os.path.abspath(__file__)))
+    SETS[1] = (TARGETS, HEADER)
+    SETS[2] = (TARGETS2, HEADER2)
     ap = argparse.ArgumentParser()
     ap.add_argument("--repo", default="/repo")
-    ap.add_argument("--out", default=os.path.join(root, "lean", "GraafVerif", "Model", "AlgoGen.lean"))
+    ap.add_argument("--set", type=int, default=1, choices=sorted(SETS),
+                    help="1: Model/AlgoGen.lean (src/algo traversals / shortest paths); 2: Model/AlgoGen2.lean")
+    ap.add_argument("--out", default=None)
     ap.add_argument("--check", action="store_true", help="exit 3 if the file on disk differed (it is rewritten)")
     ap.add_argument("--list", action="store_true", help="print the coverage table")
     ap.add_argument("--stdout", action="store_true", help="print the generated text instead of writing it")
     ap.add_argument("--write-docs", nargs="?", const=os.path.join(root, "docs", "AlgoGen.md"), default=None,
                     help="rewrite the coverage table between the COVERAGE markers of docs/AlgoGen.md")
     a = ap.parse_args()
+    if a.out is None:
+        a.out = os.path.join(root, "lean", "GraafVerif", "Model", "AlgoGen.lean" if a.set == 1 else f"AlgoGen{a.set}.lean")
     try:
-        text, srcs, fntab = translate(a.repo)
+        text, srcs, fntab = translate(a.repo, a.set)
     except (TErr, OSError, ValueError, KeyError, IndexError, AttributeError, TypeError) as e:
         print(f"translate_algo: ERROR {type(e).__name__ if not isinstance(e, TErr) else ''} {e}".replace("  ", " "))
         sys.exit(2)
     if a.stdout:
         print(text)
         return
-    rows = coverage(srcs, fntab)
-    ndefs = sum(s["ndefs"] for s in fntab.values())
+    rows = coverage(srcs, fntab, a.set)
+    ndefs = sum(s["ndefs"] for s in GEN_ROWS.values())
     cov = [r for r in rows if r[3] == "covered"]
     ncv = [r for r in rows if r[3] == "not covered"]
     if a.list:
         print(coverage_md(rows))
     if a.write_docs:
-        begin, end = "<!-- COVERAGE:BEGIN (written by tools/translate_algo.py --write-docs) -->", "<!-- COVERAGE:END -->"
+        tag = "" if a.set == 1 else str(a.set)
+        begin = f"<!-- COVERAGE{tag}:BEGIN (written by tools/translate_algo.py --write-docs) -->"
+        end = f"<!-- COVERAGE{tag}:END -->"
         doc = open(a.write_docs).read() if os.path.exists(a.write_docs) else f"# AlgoGen\n\n{begin}\n{end}\n"
         if begin not in doc or end not in doc:
             doc += f"\n{begin}\n{end}\n"
@@ -2984,8 +3652,8 @@ def main():
         post = rest.split(end, 1)[1]
         open(a.write_docs, "w").write(pre + begin + "\n" + coverage_md(rows) + "\n" + end + post)
     old = open(a.out).read() if os.path.exists(a.out) else None
-    norm = lambda s: re.sub(r"GENERATED by tools/translate_algo.py from \S+", "GENERATED", s) if s else s
-    summary = f"{len(cov)} functions covered ({ndefs} definitions), {len(ncv)} candidate(s) not covered"
+    norm = lambda s: re.sub(r"GENERATED by tools/translate_algo.py (--set \d+ )?from \S+", "GENERATED", s) if s else s
+    summary = (f"set {a.set}: " if a.set != 1 else "") + f"{len(cov)} functions covered ({ndefs} definitions), {len(ncv)} candidate(s) not covered"
     if norm(old) != norm(text):
         open(a.out, "w").write(text)
         print(f"translate_algo: regenerated {a.out} (content changed): {summary}")
